@@ -36,6 +36,9 @@ type stubCrawler struct {
 	h     *sim.Host
 	crawl []crawled
 	runs  int
+	// addrMode: "" one address per peer; "multi": three addresses on one IP (tcp, a second port, quic) - one IP group,
+	// several addresses; "two-groups": a second address in the next IP group - the peer is a member of both
+	addrMode string
 }
 
 type crawled struct {
@@ -56,6 +59,14 @@ func (s *stubCrawler) Run(ctx context.Context, _ []*peer.AddrInfo, ok crawler.Ha
 		a := groupAddr(p.group, i)
 		s.h.Peerstore().ClearAddrs(p.id)
 		s.h.Peerstore().AddAddr(p.id, a, peerstore.PermanentAddrTTL)
+		switch s.addrMode {
+		case "multi":
+			ip := fmt.Sprintf("/ip4/%d.1.%d.%d", 20+p.group, i/250, 1+i%250)
+			s.h.Peerstore().AddAddr(p.id, ma.StringCast(ip+"/tcp/4002"), peerstore.PermanentAddrTTL)
+			s.h.Peerstore().AddAddr(p.id, ma.StringCast(ip+"/udp/4001/quic-v1"), peerstore.PermanentAddrTTL)
+		case "two-groups":
+			s.h.Peerstore().AddAddr(p.id, groupAddr((p.group+1)%3, 100+i), peerstore.PermanentAddrTTL)
+		}
 		if len(s.h.Network().ConnsToPeer(p.id)) == 0 {
 			s.h.AddConn(p.id, network.DirOutbound, a)
 		}
@@ -138,6 +149,7 @@ func refClosest(c []crawled, key string, k, limit int) []peer.ID {
 type c16cfg struct {
 	k, limit  int
 	chunk, of int
+	addrMode  string
 }
 
 func c16Configs(tier string) []vmc.Cfg {
@@ -145,7 +157,17 @@ func c16Configs(tier string) []vmc.Cfg {
 	for k := 1; k <= 3; k++ {
 		for limit := 0; limit <= 2; limit++ {
 			for i := 0; i < 4; i++ {
-				out = append(out, vmc.Cfg{Name: fmt.Sprintf("closest/k%d/limit%d/%d-of-4", k, limit, i), Data: c16cfg{k, limit, i, 4}})
+				out = append(out, vmc.Cfg{Name: fmt.Sprintf("closest/k%d/limit%d/%d-of-4", k, limit, i), Data: c16cfg{k, limit, i, 4, ""}})
+			}
+		}
+	}
+	// address assignments with several addresses per peer (only meaningful with a limit)
+	for _, mode := range []string{"multi", "two-groups"} {
+		for k := 1; k <= 3; k++ {
+			for limit := 1; limit <= 2; limit++ {
+				for i := 0; i < 4; i++ {
+					out = append(out, vmc.Cfg{Name: fmt.Sprintf("closest-%s/k%d/limit%d/%d-of-4", mode, k, limit, i), Data: c16cfg{k, limit, i, 4, mode}})
+				}
 			}
 		}
 	}
@@ -164,6 +186,14 @@ func c16Run(x *vmc.X, cfg vmc.Cfg) {
 		return
 	}
 	defer e.close()
+	e.stub.addrMode = c.addrMode
+	// the IP groups a peer is a member of
+	memberOf := func(g int) []int {
+		if c.addrMode == "two-groups" {
+			return []int{g, (g + 1) % 3}
+		}
+		return []int{g}
+	}
 	cells := []string{"000", "001", "010", "011", "100", "101", "110", "111"}
 	keys := make([]string, 8)
 	for i, cell := range cells {
@@ -226,7 +256,9 @@ func c16Run(x *vmc.X, cfg vmc.Cfg) {
 			perGroup := map[int]int{}
 			for i, m := range members {
 				crawl = append(crawl, crawled{kid.Peer(cells[m], 6), g[i]})
-				perGroup[g[i]]++
+				for _, mg := range memberOf(g[i]) {
+					perGroup[mg]++
+				}
 			}
 			e.recrawl(crawl)
 			if len(e.frt.Stat()) != n {
@@ -245,7 +277,7 @@ func c16Run(x *vmc.X, cfg vmc.Cfg) {
 					x.Failf("C16/closest-error", "%v", err)
 					return
 				}
-				shape := fmt.Sprintf("crawl cells %v groups %v K=%d limit=%d key %s", members, g, c.k, c.limit, kid.BitsOf([]byte(key), 3))
+				shape := fmt.Sprintf("crawl cells %v groups %v addresses %q K=%d limit=%d key %s", members, g, c.addrMode, c.k, c.limit, kid.BitsOf([]byte(key), 3))
 				grp := map[peer.ID]int{}
 				for _, p := range crawl {
 					grp[p.id] = p.group
@@ -256,10 +288,12 @@ func c16Run(x *vmc.X, cfg vmc.Cfg) {
 						x.Failf("C16/closest-foreign-peer", "%s: result contains a peer that was not crawled", shape)
 						return
 					}
-					cnt[grp[p]]++
-					if c.limit > 0 && cnt[grp[p]] > c.limit {
-						x.Failf("C16/closest-group-limit", "%s: %d returned peers share IP group %d (limit %d): %v; addresses the client holds: %v", shape, cnt[grp[p]], grp[p], c.limit, e.names(got, crawl), e.frt.peerAddrs)
-						return
+					for _, mg := range memberOf(grp[p]) {
+						cnt[mg]++
+						if c.limit > 0 && cnt[mg] > c.limit {
+							x.Failf("C16/closest-group-limit", "%s: %d returned peers share IP group %d (limit %d): %v; addresses the client holds: %v", shape, cnt[mg], mg, c.limit, e.names(got, crawl), e.frt.peerAddrs)
+							return
+						}
 					}
 					if i > 0 && kid.Xor([]byte(got[i-1]), []byte(p), []byte(key)) >= 0 {
 						x.Failf("C16/closest-not-ascending", "%s: result %v is not in ascending distance", shape, e.names(got, crawl))
@@ -267,7 +301,12 @@ func c16Run(x *vmc.X, cfg vmc.Cfg) {
 					}
 				}
 				want := refClosest(crawl, key, c.k, c.limit)
-				if !overfull || true {
+				if c.addrMode == "two-groups" {
+					// which peers a greedy selection keeps when a peer is a member of two groups is not specified:
+					// only "exactly the K nearest when no group is overfull" is compared
+					want = refClosest(crawl, key, c.k, 0)
+				}
+				if c.addrMode != "two-groups" || !overfull {
 					if fmt.Sprint(got) != fmt.Sprint(want) {
 						sig := "C16/closest-not-the-nearest"
 						if overfull {
